@@ -11,7 +11,8 @@ META = {
     "level": "model_checking",
     "text": "ServerLifecycle.tla models grpc.Server at settled-step granularity: per-connection handler quota (pending streams get a "
             "handler only while fewer than MaxConcurrentStreams handlers of the connection run), client cancellation, handler "
-            "return with a status, GracefulStop and Stop at any point. TLC checks I_Sem, I_GracefulWaits, I_GracefulServes, "
+            "return with a status, GracefulStop and Stop at any point (also GracefulStop after a Stop that handlers outlive), with and "
+            "without the stream worker pool (grpc.NumStreamWorkers). TLC checks I_Sem, I_GracefulWaits, I_GracefulServes, "
             "I_NoAcceptAfter and I_StopCancels for 2 connections x 2 RPCs with limit 1 and 1 connection x 3 RPCs with limit 2 "
             "(thorough: also 2 x 3 with limit 2, model only; negative controls: quota not enforced; GracefulStop not waiting for "
             "handlers). Every transition of the state graphs (a seeded sample in the quick tier) is executed on the real grpc.Server "
@@ -75,6 +76,11 @@ def scope(ctx, binary, mccfg, tracecfg, nc, nr, limit, cap, tag):
     behs.sort(key=lambda b: 1 if any(s["a"] == "gfinish" for s in b) else 0)
     shards = [behs[i::SHARDS] for i in range(SHARDS)]
     shards = [s for s in shards if s]
+    # server option in the scenario space: grpc.NumStreamWorkers (handlers dispatched to the worker pool
+    # instead of a new goroutine).  Quick: every other shard; thorough: every behaviour with and without.
+    workers = [0 if i % 2 == 0 else 3 for i in range(len(shards))]
+    if not ctx.quick():
+        shards, workers = shards + shards, [0] * len(shards) + [3] * len(shards)
 
     def one(i):
         bpath = os.path.join(ctx.run, "beh-%s-%d.ndjson" % (tag, i))
@@ -82,13 +88,14 @@ def scope(ctx, binary, mccfg, tracecfg, nc, nr, limit, cap, tag):
         write_ndjson(bpath, shards[i])
         try:
             ctx.driver(binary, "TestVerifC25Replay", {"VERIF_BEHAVIOURS": bpath, "VERIF_OUT": opath,
-                                                       "VERIF_NC": nc, "VERIF_NR": nr, "VERIF_LIMIT": limit},
+                                                       "VERIF_NC": nc, "VERIF_NR": nr, "VERIF_LIMIT": limit,
+                                                       "VERIF_WORKERS": workers[i]},
                        timeout=ctx.pick(240, 1500))
         except Inconclusive as e:
             return opath, e       # e.g. the bubble cannot settle; the trace written so far is still judged
         return opath, None
 
-    with concurrent.futures.ThreadPoolExecutor(len(shards)) as ex:
+    with concurrent.futures.ThreadPoolExecutor(SHARDS) as ex:
         outs = list(ex.map(one, range(len(shards))))
     failed = [e for _, e in outs if e is not None]
     with open(tpath, "w") as f:
@@ -97,8 +104,9 @@ def scope(ctx, binary, mccfg, tracecfg, nc, nr, limit, cap, tag):
                 f.write(open(o).read())
     if os.path.getsize(tpath) == 0:
         raise failed[0] if failed else Inconclusive("empty trace")
-    for b in behs:
-        ctx.count([tag, b], nontrivial=len(b) >= 3)
+    for i, sh in enumerate(shards):
+        for b in sh:
+            ctx.count([tag, workers[i], b], nontrivial=len(b) >= 3)
     ctx.sample({"scope": tag, "behaviour": behs[len(behs) // 2]})
     res = ctx.validate("ServerLifecycleTrace", tracecfg, tpath)
     judge(ctx, res, tpath, "replay of TLC behaviours (%s)" % tag)
